@@ -18,7 +18,9 @@ import (
 var c10Values = []string{"", "1", "12", "a", "abc5", "5abc", "1/b", "100%", "é", "\xff", "{x}", "%d%s"} // '%': values are text, never a format
 
 // c10Extra: names that start with more than one '-' (one is the flag, the rest is the name) and literal text with '%'
-var c10Extra = []string{"/a/{--x}/b", "/a/{x}/{--x}", "/p/{--x:digit}/c", "/q/{x}%7C{y}", "/q/{x}%d"}
+var c10Extra = []string{"/a/{--x}/b", "/a/{x}/{--x}", "/p/{--x:digit}/c", "/q/{x}%7C{y}", "/q/{x}%d",
+	// a route ten nodes deep; a pattern only a router with interceptors can read (the name is no regexp group name)
+	"/1/{a}/2/{b}/3/{c}/4/{d}/5/{e}/6/{f}/7/{g}/8/{h}/9/{i}/10", "/p/{u-id:digit}/c"}
 
 // one malformed pattern per documented error class and per combination of parameter kinds
 var c10Malformed = func() []string {
@@ -141,6 +143,13 @@ func c10Job(raw json.RawMessage) (any, error) {
 		}
 	}
 
+	if len(names) >= 6 {
+		vals = []string{"1"} // a deep pattern: every key absent or bound
+	}
+	// a pattern that only a router with interceptors can read: the package-level table behind the non-strict mode takes
+	// the rule for a regexp and then refuses the name (DESIGN section 6); only the strict mode is compared for it
+	strictOnly := it.Pattern == "/p/{u-id:digit}/c"
+
 	// routers for the strict mode: pattern live / not live / only a structural prefix / removed again
 	type rt struct {
 		name string
@@ -248,7 +257,7 @@ func c10Job(raw json.RawMessage) (any, error) {
 				want = fmt.Sprintf("%q", s)
 			}
 		}
-		if len(ps) > 0 {
+		if len(ps) > 0 && !strictOnly {
 			// mux.URL
 			var s string
 			var err error
